@@ -22,7 +22,7 @@ def trackWrite (t : Markers) (off len : Nat) : Markers :=
 /-- `getRangeToRead`: walk the markers in key order. -/
 def getRangeGo (off len : Nat) : Markers → Nat → Bool → Nat × Bool
   | [], c, st => (c, st)
-  | (k, isStart) :: r, c, st =>
+  | (k, isStart) :: r, c, _ =>
     if isStart then
       if k ≤ off then getRangeGo off len r c true else (min (k - off) len, false)
     else
